@@ -837,10 +837,18 @@ func (s DB) Diff(
 	f func(key, myValue, fromValue interface{}) (keepGoing bool, err error),
 ) error {
 	var fromMast *mast.Mast = nil
+	var err error
 	if from != nil {
-		fromMast = from.crdt.Mast
+		fromMast, err = from.diffable(ctx)
+		if err != nil {
+			return err
+		}
 	}
-	err := s.crdt.Mast.DiffIter(ctx, fromMast,
+	toMast, err := s.diffable(ctx)
+	if err != nil {
+		return err
+	}
+	err = toMast.DiffIter(ctx, fromMast,
 		func(added, removed bool,
 			key, addedValue, removedValue interface{},
 		) (keepGoing bool, err error) {
@@ -852,6 +860,22 @@ func (s DB) Diff(
 			return f(key, myValue, fromValue)
 		})
 	return err
+}
+
+// diffable returns the tree to hand to mast's diff. A tree whose last entry
+// was removed by RemoveTombstones has no root node at all, which the diff
+// cannot walk (it fails comparing a nil key); an empty tree that was never
+// filled can be, so one of those stands in for it.
+func (s *DB) diffable(ctx context.Context) (*mast.Mast, error) {
+	if s.Size() > 0 {
+		return s.crdt.Mast, nil
+	}
+	empty, err := crdt.Load(ctx, s.crdt.Config, nil,
+		emptyRoot(time.Time{}, s.crdt.Mast.BranchFactor(), s.crdt.Config))
+	if err != nil {
+		return nil, err
+	}
+	return empty.Mast, nil
 }
 
 func innerValue(v interface{}) interface{} {
@@ -1035,7 +1059,15 @@ type DiffCursor struct {
 }
 
 func (d *DB) StartDiff(ctx context.Context, other *DB) (*DiffCursor, error) {
-	inner, err := d.crdt.Mast.StartDiff(ctx, other.crdt.Mast)
+	toMast, err := d.diffable(ctx)
+	if err != nil {
+		return nil, err
+	}
+	fromMast, err := other.diffable(ctx)
+	if err != nil {
+		return nil, err
+	}
+	inner, err := toMast.StartDiff(ctx, fromMast)
 	if err != nil {
 		return nil, err
 	}
